@@ -479,3 +479,7 @@ def run(ck, F):
     ck.extra['visit_overloads'] = len(overloads)
     ck.samples.append({'dispatch_chain_example': ['ipr::impl::Node<ipr::Plus>::accept', 'visit(const ipr::Plus&)',
                                                   'visit(const ipr::' + (nearest_super('ipr::Plus') or '?').split('::')[-1] + '&)']})
+    # the statically allocated constants answer category() / accept() like any node only if they are constant-initialised: a constant
+    # built by a dynamic initialiser is zero-filled (category Unknown, no dispatch) for whoever asks before that initialiser has run
+    import borrow as _borrow
+    _borrow.borrow(ck, F, 'C13', 'C06', {'constant-initialised', 'process-wide'})
